@@ -30,6 +30,15 @@ def cases(rng, tier):
             labels.append(b"z" * l)
             left -= l + 1
         out.append("NAMENEW " + b".".join(labels).hex())
+        # the same name written with a trailing dot, a leading dot and doubled dots: empty pieces are dropped, so the text is
+        # longer than the name (a 255-byte name from 254 or more characters of text)
+        out.append("NAMENEW " + (b".".join(labels) + b".").hex())
+        out.append("NAMENEW " + (b"." + b".".join(labels)).hex())
+        out.append("NAMENEW " + b"..".join(labels).hex())
+    for reps in range(120, 131):
+        out.append("NAMENEW " + (b"a." * reps).hex())           # many one-byte labels, trailing dot
+        out.append("NAMENEW " + (b"a." * reps)[:-1].hex())
+    out.append("NAMENEW " + (b"example" + b"." * 300 + b"com").hex())
     pool = [[]]
     for n in range(1, 5):
         for tup in itertools.product([b"a", b"b"], repeat=n):
